@@ -52,7 +52,8 @@ def run_tlc(n, workdir):
     open(os.path.join(workdir, "GqlTransportWs.cfg"), "w").write(cfg)
     cmd = ["tlc", "-workers", "4", "-noGenerateSpecTE", "-deadlock", "-metadir", os.path.join(workdir, "meta"),
            "-dump", os.path.join(workdir, "states"), "GqlTransportWs"]
-    r = subprocess.run(cmd, cwd=workdir, capture_output=True, text=True, timeout=3600)
+    env = dict(os.environ, JAVA_TOOL_OPTIONS=f"-Djava.io.tmpdir={workdir}")
+    r = subprocess.run(cmd, cwd=workdir, capture_output=True, text=True, timeout=3600, env=env)
     out = r.stdout + r.stderr
     m = re.search(r"(\d+) states generated, (\d+) distinct states found", out)
     ok = "Model checking completed. No error has been found." in out
